@@ -16,7 +16,34 @@ P = {'id': 'C11',
               'insertion_sort_sorts',
               'replacement_selection_runs',
               'external_sort_sorts',
-              'external_sort_zero_buffer_refuted'],
+              'external_sort_zero_buffer_refuted',
+              'msd_sorts_strings',
+              'msd_sorts_ints',
+              'sort_bytes_msd_sorts',
+              'lex_sorted_permutation_unique',
+              'msd_early_return_refuted',
+              'keyed_counting_pass_is_stable_bucketing',
+              'adv_sort_any_strategy_ints',
+              'adv_sort_any_strategy_strings',
+              'adv_sort_str_lsd_collision_refuted',
+              'heap_merge_merges',
+              'mwm_merge_merges',
+              'counting_sort_sorts',
+              'chunk_boundaries_agree',
+              'parallel_sort_sorts_u32',
+              'parallel_sort_sorts_u64',
+              'par_chunk_mismatch_refuted',
+              'constant_digit_pass_is_identity',
+              'lsd_skip_constant_digit_sorts',
+              'lsd_break_refuted',
+              'ms_1small_inter_eq',
+              'ms_1small_inter2_eq',
+              'ms_fast_inter_eq',
+              'ms_fast_inter2_eq',
+              'multipass_merge_sorts',
+              'external_sort_multipass_sorts',
+              'multipass_chunks_exact_refuted',
+              'co_sort_sorts'],
  'trusted': ['modelled (M+S): src/algorithms/radix_sort.rs sort_u32_sequential / sort_u64_sequential / AdvancedRadixSort::lsd_radix_sort_sequential '
              '(counts array, exclusive prefix sums, scatter into a zeroed buffer, pass count from the key width resp. the largest key), counting_sort_u32 and '
              'the sort_u32 dispatch, insertion sort; src/algorithms/tournament_tree.rs EnhancedLoserTree as coded (linear scan for the least head; the tree '
